@@ -41,12 +41,12 @@ import (
 func init() { register("c17", runC17) }
 
 func runC17(e *Env) {
-	e.R.Rule = "(b) every interleaving, at mutex granularity, of W workers' take(nextChunkToSend)/finish(markChunkDone)/poll(trySendEnd) steps with the external steps V1 (verifyPending stored), V2 (verdict stored) and P (plan stored; V1 first, then V2 and P in either order) over the real sendFileState, for every chunk count n, bitmap, verification point (incl. none) and verification outcome (off/right/wrong) plus the no-report case; explored by re-execution (DFS over schedules, every prefix replayed on a fresh real state; a prefix is not extended when it reaches a combination of real dispatch state, worker states, delivered external steps and monitor state that was already expanded, nor beyond its first violation; interchangeable idle workers are not distinguished and a worker does not repeat a take+poll cycle that changed nothing; the number of interleavings covered is the number of root-to-end paths of the explored graph, cross-checked against one-by-one enumeration for W=1). Bound: quick n<=3 chunks, W<=2 workers; thorough n<=5, W<=3; the bound of the tier is explored completely (otherwise the run is inconclusive). (a) seeded traces of the real SendManifestMultiStream over loopback QUIC against a scripted receiver (1-3 files incl. empty ones, <=6 chunks, <=3 streams, report at once / inside the grace / after the grace / never, any bitmap, verification chunk, right or wrong hash, hold at send.verify.beforeHash, jitter at send.chunk.beforeFrame), judged per file from the hook event order; plus a second family of such traces whose files have 7, 8, 9, 15, 16, 17, 24, 25, 32, 40, 63 or 64 chunks (bitmaps of 1-8 bytes whose last byte is full, nearly full or holds one bit) and whose reports reach into the last bitmap byte (complete file with/without verification point, prefix ending inside the last byte, last byte only, scattered + last byte, both sides of the last byte boundary, everything below the last byte, anything), chunk count x report pattern walked round-robin; for a report applied before the first chunk was handed out the data frames read by the scripted receiver are judged as well (a chunk reported present below the verification point must not arrive; the failed verification chunk once). (c) seeded random Add/Next/Remove orders on the real HybridScheduler. distinct = (b) input x worker count x class of schedule end reached (report in time / late, deciding step finish or poll, verdict before plan, report after the end-of-file decision); (a) distinct per-file hook event orders per input, and chunk count x report pattern x verification outcome x report timing of the second family; (c) distinct operation orders"
+	e.R.Rule = "(b) every interleaving, at mutex granularity, of W workers' take(nextChunkToSend)/finish(markChunkDone)/poll(trySendEnd) steps with the external steps V1 (verifyPending stored), V2 (verdict stored) and P (plan stored; V1 first, then V2 and P in either order) over the real sendFileState, for every chunk count n, bitmap, verification point (incl. none) and verification outcome (off/right/wrong) plus the no-report case; explored by re-execution (DFS over schedules, every prefix replayed on a fresh real state; a prefix is not extended when it reaches a combination of real dispatch state, worker states, delivered external steps and monitor state that was already expanded, nor beyond its first violation; interchangeable idle workers are not distinguished and a worker does not repeat a take+poll cycle that changed nothing; the number of interleavings covered is the number of root-to-end paths of the explored graph, cross-checked against one-by-one enumeration for W=1). Bound: quick n<=3 chunks, W<=2 workers; thorough n<=5, W<=3; the bound of the tier is explored completely (otherwise the run is inconclusive). (a) seeded traces of the real SendManifestMultiStream over loopback QUIC against a scripted receiver (1-3 files incl. empty ones, <=6 chunks, <=3 streams, report at once / inside the grace / after the grace / never, any bitmap, verification chunk, right or wrong hash, hold at send.verify.beforeHash, jitter at send.chunk.beforeFrame), judged per file from the hook event order; plus a second family of such traces whose files have 7, 8, 9, 15, 16, 17, 24, 25, 32, 40, 63 or 64 chunks (bitmaps of 1-8 bytes whose last byte is full, nearly full or holds one bit) and whose reports reach into the last bitmap byte (complete file with/without verification point, prefix ending inside the last byte, last byte only, scattered + last byte, both sides of the last byte boundary, everything below the last byte, anything), chunk count x report pattern walked round-robin; for a report applied before the first chunk was handed out the data frames read by the scripted receiver are judged as well (a chunk reported present below the verification point must not arrive; the failed verification chunk once); plus a third family in which the sender runs with Options.ResumeTimeout > 0 (25-110 ms, every twelfth trace above the 300 ms grace period) over manifests with 1-3 files more than file slots (1-2 slots, 1-4 chunks per file) and the report of a file is written at once, racing the timeout, 15-135 ms after it, never, or at a logical trigger that lies behind the end of the sender's wait for it (first chunk frame read, end-of-file record read, file acknowledged), timings walked round-robin: same per-file oracle, so every later file must still be begun exactly once; a trace on which the watchdog fires while files were never begun although the receiver had acknowledged every begun file is a violation only under the bounded-progress rule (no hook hit / record / frame during the last half of the watchdog period, canary with the same manifest and no reports completes, same end when run again on fresh connections), inconclusive otherwise. (c) seeded random Add/Next/Remove orders on the real HybridScheduler. distinct = (b) input x worker count x class of schedule end reached (report in time / late, deciding step finish or poll, verdict before plan, report after the end-of-file decision); (a) distinct per-file hook event orders per input, and chunk count x report pattern x verification outcome x report timing of the second family; (c) distinct operation orders"
 	// VERIF_C17_PARTS=abc (development aid): run only the listed parts; the minimum-observation
 	// requirements of the parts that ran still apply
 	parts := os.Getenv("VERIF_C17_PARTS")
 	if parts == "" {
-		parts = "bac"
+		parts = "barc"
 	}
 	for _, p := range parts {
 		switch p {
@@ -54,6 +54,8 @@ func runC17(e *Env) {
 			c17PartB(e)
 		case 'a':
 			c17PartA(e)
+		case 'r': // (a), third family: sender with a resume timeout, more files than slots (c17rto.go)
+			c17PartR(e)
 		case 'c':
 			c17PartC(e)
 		}
